@@ -386,8 +386,8 @@ pub fn spec() -> PropSpec {
             Family { name: "handshake", f: fam_handshake, weight: 15 },
             Family { name: "general", f: fam_general, weight: 15 },
         ],
-        quick_worlds: 40_000,
-        thorough_worlds: 600_000,
+        quick_worlds: 100_000,
+        thorough_worlds: 1_200_000,
         panic_is_violation: true,
         rule: "each world = one seeded execution of stream workloads under drawn initial_mtu / min_mtu / discovery configurations and peer max_udp_payload_size values, GSO batch sizes 1..10, a link MTU (silent drop threshold) that starts anywhere from 1200 to 65535 and changes at drawn instants, plus the usual loss / duplication / reordering / migration faults; non-trivial = a fault fired or >1 connection; distinct = distinct abstract-event signature",
         assumptions: vec![
